@@ -40,12 +40,21 @@ def isPyAsciiSpace (c : Char) : Bool :=
   c == ' ' || c == '\t' || c == '\n' || c == '\r' || c == '\x0b' || c == '\x0c'
   || c == '\x1c' || c == '\x1d' || c == '\x1e' || c == '\x1f'
 
+/-- the blanks `int()` skips around an ASCII literal: unlike `str.strip()` not the four separators
+    `\x1c`–`\x1f` (`int("1\x1f")` is a `ValueError`) -/
+def isIntSpace (c : Char) : Bool :=
+  c == ' ' || c == '\t' || c == '\n' || c == '\r' || c == '\x0b' || c == '\x0c'
+
+/-- `sys.get_int_max_str_digits()`: `int(str)` refuses more digits (CPython ≥ 3.11) -/
+def intMaxStrDigits : Nat := 4300
+
 /-- `int(s)` for an ASCII string (`unmodelled` outside ASCII, where Unicode digits and spaces
     would also be accepted) -/
 def pyIntOfStr (s : String) : R :=
   let cs := s.toList
   if cs.any (fun c => c.toNat ≥ 128) then .error .unmodelled else
-  let cs := (cs.dropWhile isPyAsciiSpace).reverse.dropWhile isPyAsciiSpace |>.reverse
+  if (cs.filter isAsciiDigit).length > intMaxStrDigits then .error .valueError else
+  let cs := (cs.dropWhile isIntSpace).reverse.dropWhile isIntSpace |>.reverse
   let (neg, ds) := match cs with
     | '-' :: r => (true, r)
     | '+' :: r => (false, r)
